@@ -323,7 +323,9 @@ func (e *engine) compileModule(ctx context.Context, module *wasm.Module, listene
 			return nil, err
 		}
 	}
+	e.mux.RLock()
 	cm.sharedFunctions = e.sharedFunctions
+	e.mux.RUnlock()
 	e.setFinalizer(cm.executables, executablesFinalizer)
 	return cm, nil
 }
